@@ -503,6 +503,8 @@ def clamp(v, min=None, max=None):
     if isinstance(v, Vec):
         c = ctx()
         c.ghost.setdefault("mat_clamps", []).append((v.name, min, max))
+        if min is not None and min >= 0:
+            c.ghost.setdefault("mat_nonneg", set()).add(v.name)     # from here on the entries are known non-negative
         return v          # under the recorded precondition that the entries are within the bounds
     raise OutOfSubset("clamp of %r" % (type(v),))
 
@@ -510,6 +512,9 @@ def clamp(v, min=None, max=None):
 def sqrt(v):
     if isinstance(v, Vec):
         a = alg()
+        # precondition of sqrt: a spectrum computed in floating point can be slightly negative, the square root of which
+        # is NaN; the argument must have been clamped at a non-negative bound first
+        ctx().ghost.setdefault("mat_sqrt_args", []).append((v.name, v.name in ctx().ghost.get("mat_nonneg", set())))
         name = "sqrt_" + v.name
         s = Vec(name, v.n, kind=("sqrt", v.name))
         a.add_rule([(v.name, N)], [(name, N), (name, N)], "e = sqrt(e)^2")
